@@ -72,7 +72,7 @@ func init() {
 		ID: "C11",
 		Rule: "cases are null-free (a, b) pairs that differ under the reading, x {MERGE, SET+MERGE, MULTISET+MERGE}: key removal at depth, object <-> scalar <-> array changes, empty objects and arrays on either side, b = {}, hostile keys, and an exhaustive family of small objects; " +
 			"the rendered merge patch is applied to a by the RFC 7386 pseudocode and must give b under the reading; non-trivial = every evaluated case; distinct = distinct (a, b, options)",
-		Floors: map[string]int{"patch_is_object": 10000, "patch_deletes_a_member": 3000, "patch_replaces_root": 2000, "hunk_merge_delete": 3000, "hunk_depth>=3": 500},
+		Floors: map[string]int{"patch_is_object": 10000, "patch_deletes_a_member": 3000, "patch_replaces_root": 2000, "hunk_merge_delete": 3000, "hunk_depth>=3": 500, "type_confusable_elements": 1500},
 		Assumptions: []string{"documents are null-free and differ under the reading (stated preconditions)", "ref.MergePatch is the RFC 7386 pseudocode verbatim"},
 	}
 	for _, o := range []OptSet{OptMerge, OptSetMerge, OptMsMerge} {
@@ -108,6 +108,42 @@ func init() {
 			},
 		})
 	}
+	p.Strata = append(p.Strata, mon.Stratum{
+		Name: "type-confusable-elements/MERGE",
+		N:    qt(2000, 100000),
+		Run: func(c *mon.Ctx, i int) {
+			// arrays (replaced wholesale in merge mode) that are identical except for one element
+			// whose two values are easy to confuse: a number and the 8-byte string with its bit
+			// pattern, a value and its spelling, empty containers of different kinds
+			var twins [][2]any
+			for _, f := range aliasNumbers {
+				s, _ := aliasString(f)
+				twins = append(twins, [2]any{s, f})
+			}
+			twins = append(twins, [2]any{"1", 1.0}, [2]any{"true", true}, [2]any{"", []any{}}, [2]any{[]any{}, map[string]any{}}, [2]any{"{}", map[string]any{}}, [2]any{0.0, false}, [2]any{"a", "a\n"})
+			t := twins[i%len(twins)]
+			if c.R.Chance(0.5) {
+				t[0], t[1] = t[1], t[0]
+			}
+			wrapEl := func(v any) any {
+				switch (i / len(twins)) % 3 {
+				case 1:
+					return map[string]any{"id": 1.0, "v": v}
+				case 2:
+					return []any{v}
+				}
+				return v
+			}
+			base := gen.Array(c.R, gen.PTiny, c.R.Range(0, 4), 0)
+			pos := c.R.Intn(len(base) + 1)
+			mk := func(v any) any {
+				l := append(append(append([]any{}, base[:pos]...), wrapEl(v)), base[pos:]...)
+				return gen.Wrap(l, 1+i%2*2)
+			}
+			c.Feature("type_confusable_elements")
+			c11Case(c, ref.ToJSON(mk(t[0])), ref.ToJSON(mk(t[1])), OptMerge)
+		},
+	})
 	small := smallMergeDocs(false)
 	p.Strata = append(p.Strata, mon.Stratum{
 		Name:       "exh-small-docs/MERGE",
